@@ -306,17 +306,17 @@ func pack(b []byte) string {
 }
 
 type replayCase struct {
-	Artifact string `json:"artifact"`
-	Format   string `json:"format"`
-	FileName string `json:"file_name"`
-	Mutation string `json:"mutation"`
-	Site     string `json:"site"`
-	Region   string `json:"region"`
-	Outcome  string `json:"outcome"`
+	Artifact     string `json:"artifact"`
+	Format       string `json:"format"`
+	FileName     string `json:"file_name"`
+	Mutation     string `json:"mutation"`
+	Site         string `json:"site"`
+	Region       string `json:"region"`
+	Outcome      string `json:"outcome"`
 	FileGzB64    string `json:"file_gz_b64,omitempty"`
 	ContentGzB64 string `json:"content_gz_b64,omitempty"`
 	HasContent   bool   `json:"has_content"`
-	Note     string `json:"note,omitempty"`
+	Note         string `json:"note,omitempty"`
 }
 
 func mkReplay(a *Artifact, mutation, site, region, outcome string, data, content []byte) replayCase {
@@ -356,6 +356,13 @@ type flipTarget struct {
 }
 
 var masks = []byte{0x01, 0x80}
+
+// internal time cap: a run that exceeds it stops enumerating, reports what it
+// skipped and ends with exhaustive:false (never with a violation)
+var (
+	timeBudget     = 12 * time.Minute
+	skippedOffsets int64
+)
 
 func offsetsOf(n int, wins []Win) []int {
 	if wins == nil {
@@ -425,6 +432,10 @@ func runFlips(env *Env, targets []flipTarget, workers int) {
 					return
 				}
 				c := chunks[ci]
+				if time.Since(start) > timeBudget {
+					atomic.AddInt64(&skippedOffsets, int64(c.hi-c.lo))
+					continue
+				}
 				a := c.t.a
 				src, m := a.Signed, a.Map
 				if c.t.content {
@@ -457,6 +468,14 @@ func runFlips(env *Env, targets []flipTarget, workers int) {
 						if v.Class == Protected {
 							run.Distinct(fmt.Sprintf("%s|%v|%d|%02x", a.ID(), c.t.content, off, mask))
 							if strings.HasPrefix(res.Outcome, "accepted") {
+								// before believing it: the byte really differs and the
+								// untouched artifact still verifies in this very worker
+								if buf[off] == src[off] {
+									harnessFatal("flip at %d of %s changed nothing", off, a.ID())
+								}
+								if r0 := w.verify(env, a, a.Signed, nil); r0.Outcome != "accepted" {
+									harnessFatal("self-check: the unmodified %s stopped verifying (%s %s)", a.ID(), r0.Outcome, r0.Err)
+								}
 								key := a.Fmt + ":flip-accepted:" + region
 								if res.Outcome == "accepted-zero-signatures" {
 									key += ":zero-signatures"
@@ -534,6 +553,9 @@ func runSemantic(env *Env, arts []*Artifact, workers int) {
 				}
 				tallyMu.Unlock()
 				if sm.Assert && strings.HasPrefix(res.Outcome, "accepted") {
+					if r0 := w.verify(env, a, a.Signed, nil); r0.Outcome != "accepted" {
+						harnessFatal("self-check: the unmodified %s stopped verifying (%s %s)", a.ID(), r0.Outcome, r0.Err)
+					}
 					key := a.Fmt + ":" + sm.Class + "-accepted"
 					if sm.KeyHint != "" {
 						key += ":" + sm.KeyHint
@@ -752,7 +774,13 @@ func main() {
 		}
 		artInfo[a.ID()] = info
 	}
+	if run.Thorough() {
+		timeBudget = 45 * time.Minute
+	}
 	runFlips(env, targets, workers)
+	if skippedOffsets > 0 {
+		run.Capped(fmt.Sprintf("time cap of %v reached: %d enumerated offsets (x2 masks) were not executed", timeBudget, skippedOffsets))
+	}
 	flipSecs := time.Since(start).Seconds() - buildSecs
 	runSemantic(env, arts, workers)
 
